@@ -3,7 +3,8 @@
    wf_graphb / no_input_returned / imports_ok (Graph/Wf.v); these theorems say what a `true` means. *)
 From Coq Require Import List String Bool ZArith.
 Require Import OV.Graph.Syntax OV.Graph.Wf OV.Graph.WfProofs.
-Require Import OV.Script.Syntax OV.Script.Translate OV.Script.TranslateProofs OV.Script.TranslateExamples OV.Script.TranslateWfProofs.
+Require Import OV.Script.Syntax OV.Script.Translate OV.Script.TranslateProofs OV.Script.TranslateExamples OV.Script.TranslateWfProofs
+               OV.Script.TranslateWfNestProofs.
 Import ListNotations.
 
 (* checker soundness: a proto on which the checker answers true is well formed in the declarative sense
@@ -69,7 +70,49 @@ Definition C02_translate_wf_full : Prop :=
     translate false globals cic afuel orders f = Some g ->
     wf_graphb g = true /\ no_input_returned g = true.
 
-(* Proved part: stage S1, straight-line bodies (the syntactic class of C01_graph_eq_python_straightline_partial, attribute
+(* PROVED for every program the converter model accepts -- no syntactic class: if/else, for, while, a trailing conditional
+   break, nested to any depth (up to the model's own nesting bound), tuple assignment, attribute parameters, module
+   constants, sub-function calls -- in the declarative form of the checker's meaning: wf_graph g (Graph/WfProofs.v; it is
+   what C02_wf_checker_sound concludes from wf_graphb g = true): every use is defined before it in this graph or an
+   enclosing one, every subgraph output is produced by a node of that subgraph, outputs are distinct, and every value name
+   is defined exactly once across the graph and all nested subgraphs (so no subgraph redefines an outer name); plus: no graph
+   input is returned directly.  Proof (Script/TranslateWfNestProofs.v): induction on the nesting fuel; invariant of every
+   step = the emitted nodes are scoped w.r.t. what is visible, and all names they define, nested subgraphs included, are
+   pairwise distinct and fresh (C02_generated_names_fresh); block_outputs / loop_outputs list a value only when a node of
+   the block defines it and it is not listed yet and otherwise copy it with Identity (the Identity-copy rule, with the
+   repaired alias and duplicate-output cases).
+   What is not proved is only the step from wf_graph back to the boolean (completeness of the checker), so
+   C02_translate_wf_full, stated with wf_graphb, stays a Definition; on every generated program the harness also evaluates
+   wf_graphb on the model's graph (obligation "C02_translate_wf_full observed"). *)
+Theorem C02_translate_wf_all : forall globals cic afuel orders f g,
+  NoDup (f_tparams f) ->
+  translate false globals cic afuel orders f = Some g ->
+  wf_graph g /\ no_input_returned g = true.
+Proof. exact translate_wf_all. Qed.
+Print Assumptions C02_translate_wf_all.
+
+(* consequences, spelled out for the converter model *)
+Theorem C02_translate_single_assignment : forall globals cic afuel orders f g,
+  NoDup (f_tparams f) -> translate false globals cic afuel orders f = Some g ->
+  NoDup (defs_graph g) /\ NoDup (g_outs g) /\ (forall o, In o (g_outs g) -> ~ In o (g_ins g)).
+Proof.
+  exact (fun globals cic afuel orders f g Hn Ht =>
+           let H := translate_wf_all globals cic afuel orders f g Hn Ht in
+           conj (wf_defs_nodup g (proj1 H))
+                (conj (wf_outputs_distinct g (proj1 H)) (proj1 (no_input_returned_spec g) (proj2 H)))).
+Qed.
+Print Assumptions C02_translate_single_assignment.
+
+(* non-vacuity: a `for` loop whose body holds an if/else; the then branch aliases a value computed before the loop (`y = t`:
+   the branch graph must copy it with Identity), the else branch updates y; y is loop carried.  The model accepts it, the
+   graph has depth 6, and it also passes the executable checker. *)
+Theorem C02_translate_wf_nested_nonvacuous :
+  exists g, NoDup (f_tparams exwf_f) /\ translate false [] (fun _ => None) 6 [] exwf_f = Some g /\
+            depth_graph g = 6 /\ wf_graphb g = true /\ no_input_returned g = true.
+Proof. exact exwf_hyps. Qed.
+Print Assumptions C02_translate_wf_nested_nonvacuous.
+
+(* Earlier proved part, with the boolean checker itself: stage S1, straight-line bodies (the syntactic class of C01_graph_eq_python_straightline_partial, attribute
    parameters allowed): assignments and tuple assignments of arbitrary expressions (literals with their static CastLike,
    attribute parameters promoted through Constant (+Cast), module constants, operator and sub-function calls) followed by one
    return of several values with the Identity copies for returned inputs and duplicates.  From the freshness invariant of
